@@ -110,6 +110,16 @@ def schedRecCmd (ws : List String) : String :=
     | _, _, _ => "bad-op"
   | _ => "bad-op"
 
+/-- `rec-tick kind failing K cycles`: while a test is open an interval recorder persists at every elapsed interval,
+whatever the collector returned before, and EndTest reports the collector errors of the cycle -/
+def recTickCmd (ws : List String) : String :=
+  match ws with
+  | [_, fa, _, c] =>
+    match c.toNat? with
+    | some c => joinSp (List.replicate c s!"ticks=true,endErr={if fa == "-" then "false" else "true"}")
+    | none => "bad-op"
+  | _ => "bad-op"
+
 /-- `catcher-api G M R`: R rounds of G goroutines adding M errors each through the whole adding API (C10.catcher_retains) -/
 def catcherApiCmd (ws : List String) : String :=
   match ws with
